@@ -21,7 +21,7 @@ have type definitions that work in IDE. It also makes it easier to deal with age
 having local types we can modify.
 """
 
-import logging
+from deep import logging
 
 # noinspection PyUnresolvedReferences
 from deepproto.proto.common.v1.common_pb2 import KeyValue
